@@ -106,7 +106,18 @@ fn generate(cli: &Cli) -> Vec<Case> {
                                 ping_payload: 0,
                                 client_info_delay: Duration::ZERO,
                             };
-                            let secret = mk::secret16(&mut rng);
+                            let mut secret = mk::secret16(&mut rng);
+                            // leading and embedded zero bytes are part of a secret like any other byte
+                            match rng.below(10) {
+                                0 => secret[0] = 0,
+                                1 => {
+                                    secret[0] = 0;
+                                    secret[1] = 0;
+                                }
+                                2 => secret[15] = 0,
+                                3 => secret = [0u8; 16],
+                                _ => {}
+                            }
                             let mut plan = default_plan(&p, secret);
                             plan.enc = enc.clone();
                             plan.cookies = vec![(AUTH_KEY.to_string(), ck.payload.clone())];
